@@ -64,6 +64,13 @@ pub fn set_number_of_allowed_io_operations(val: usize) {
 	IO_COUNTER_BEFORE_ERROR.with(|v| v.store(val, Ordering::Relaxed));
 }
 
+/// Verification hook: remaining budget of the thread-local I/O fault injector, so that a
+/// harness can count the file operations a step performs.
+#[cfg(feature = "verif")]
+pub fn verif_remaining_io_operations() -> usize {
+	IO_COUNTER_BEFORE_ERROR.with(|v| v.load(Ordering::Relaxed))
+}
+
 #[cfg(feature = "instrumentation")]
 macro_rules! try_io {
 	($e:expr) => {{
